@@ -170,6 +170,33 @@ class PyIter:
         return "iter%s@%d" % (self.items[:6], self.pos)
 
 
+class CursorV:
+    """std::io::Cursor over a byte slice"""
+    __slots__ = ("view", "pos")
+
+    def __init__(self, view, pos=0):
+        self.view, self.pos = view, pos
+
+    def __repr__(self):
+        return "cursor@%d/%d" % (self.pos, self.view.n)
+
+
+class RefSlice:
+    """`slice::from_mut(&mut x)`: a one-element slice that aliases a local"""
+    __slots__ = ("ref",)
+
+    def __init__(self, ref):
+        self.ref = ref
+
+
+class Thunk:
+    """an element of a lazily mapped iterator: closure applied to the item when the element is consumed"""
+    __slots__ = ("cl", "x", "done", "val")
+
+    def __init__(self, cl, x):
+        self.cl, self.x, self.done, self.val = cl, x, False, None
+
+
 class Struct:
     __slots__ = ("fields", "closure")
 
@@ -220,7 +247,7 @@ class Evaluator:
                 if isinstance(val, ElemRef):
                     val = val.buf[val.i]
                     continue
-                if isinstance(val, BufView):
+                if isinstance(val, (BufView, RefSlice, CursorV)) or (isinstance(val, tuple) and val and all(isinstance(q, int) and not isinstance(q, bool) for q in val)):
                     continue            # a slice reference and the slice it points to are one value here
                 if not isinstance(val, Ref):
                     raise Unsupported("deref of non-reference %r" % (val,))
@@ -347,6 +374,16 @@ class Evaluator:
             if isinstance(base, ElemRef) and len(p) == 2:
                 base.buf[base.i] = val
                 return
+            if isinstance(base, ElemRef) and len(p) == 3 and isinstance(p[2], list) and p[2][0] == ".":
+                cur = base.buf[base.i]
+                if isinstance(cur, Struct):
+                    cur.fields[p[2][1]] = val
+                    return
+                if isinstance(cur, tuple) and 0 <= p[2][1] < len(cur):
+                    lst = list(cur)
+                    lst[p[2][1]] = val
+                    base.buf[base.i] = tuple(lst)
+                    return
             if isinstance(base, BufView) and len(p) == 3 and isinstance(p[2], list) and p[2][0] == "[k]":
                 base.set(p[2][1], val)
                 return
@@ -564,7 +601,10 @@ class Evaluator:
             n = int(rv[2]) if str(rv[2]).isdigit() else None
             if n is None or n > 1 << 16:
                 raise Unsupported("array repeat with a non-constant length")
-            return BufView([self.operand(fr, rv[1])] * n)       # `[x; N]`: a buffer, so that sub-slices of it can be written
+            v0 = self.operand(fr, rv[1])
+            if isinstance(v0, Struct) and not getattr(v0, "closure", None):
+                return BufView([Struct(list(v0.fields)) for _ in range(n)])
+            return BufView([v0] * n)       # `[x; N]`: a buffer, so that sub-slices of it can be written
         if k == "rawptr" and rv[1] == "FakeForPtrMetadata":
             return self.read_place(fr, rv[2]) if len(rv) > 2 else UNKNOWN
         if k == "discr":
@@ -738,8 +778,9 @@ class Evaluator:
                 return Enum("core::option::Option", 0, "None", [])
             return Enum("core::option::Option", 1, "Some", [r])
         if short.startswith("core::num::<impl ") and short.split("::")[-1] in ("from_be_bytes", "from_le_bytes", "from_ne_bytes") and len(args) == 1 \
-                and isinstance(args[0], (tuple, list)) and all(isinstance(q, int) for q in args[0]):
-            bs = list(args[0]) if short.endswith("from_be_bytes") else list(reversed(args[0]))
+                and isinstance(args[0], (tuple, list, BufView)) and all(isinstance(q, int) for q in (args[0].items() if isinstance(args[0], BufView) else args[0])):
+            a_ = args[0].items() if isinstance(args[0], BufView) else args[0]
+            bs = list(a_) if short.endswith("from_be_bytes") else list(reversed(a_))
             v = 0
             for q in bs:
                 v = (v << 8) | (q & 255)
@@ -860,12 +901,31 @@ class Evaluator:
                 if isinstance(r, int):
                     return ElemRef(a0.buf, a0.off + r) if 0 <= r < a0.n else (_ for _ in ()).throw(Unsupported("index out of range"))
                 if isinstance(r, Struct) and all(isinstance(q, int) for q in r.fields):
+                    if "RangeToInclusive<" in tys and len(r.fields) == 1:
+                        return a0.sub(0, r.fields[0] + 1)
                     if "RangeTo<" in tys and len(r.fields) == 1:
                         return a0.sub(0, r.fields[0])
                     if "RangeFrom<" in tys and len(r.fields) == 1:
                         return a0.sub(r.fields[0], a0.n)
                     if len(r.fields) == 2:
                         return a0.sub(r.fields[0], r.fields[1])
+            if last in ("get", "get_mut") and len(args) == 2:
+                r = args[1]
+                none = Enum("core::option::Option", 0, "None", [])
+                if isinstance(r, int) and not isinstance(r, bool):
+                    return Enum("core::option::Option", 1, "Some", [ElemRef(a0.buf, a0.off + r)]) if 0 <= r < a0.n else none
+                tys = " ".join(c.get("args") or [])
+                if isinstance(r, Struct) and all(isinstance(q, int) for q in r.fields):
+                    lo, hi = (0, r.fields[0]) if "RangeTo<" in tys and len(r.fields) == 1 else (r.fields[0], a0.n) if "RangeFrom<" in tys and len(r.fields) == 1 \
+                        else (r.fields[0], r.fields[1]) if len(r.fields) == 2 else (None, None)
+                    if lo is not None:
+                        return Enum("core::option::Option", 1, "Some", [a0.sub(lo, hi)]) if 0 <= lo <= hi <= a0.n else none
+            if last in ("first", "last") and len(args) == 1 and sh0.startswith("core::slice"):
+                if a0.n == 0:
+                    return Enum("core::option::Option", 0, "None", [])
+                return Enum("core::option::Option", 1, "Some", [ElemRef(a0.buf, a0.off + (0 if last == "first" else a0.n - 1))])
+            if last == "to_vec" and len(args) == 1:
+                return BufView(a0.items())
             if last in ("chunks_exact_mut", "chunks_exact", "chunks", "chunks_mut") and len(args) == 2 and isinstance(args[1], int) and args[1] > 0:
                 k = args[1]
                 m = a0.n // k if "exact" in last else -(-a0.n // k)
@@ -879,10 +939,131 @@ class Evaluator:
                 for i in range(a0.n):
                     a0.set(i, args[1])
                 return ()
+        # std::io::Cursor<&[u8]> and the Read calls on it
+        if sh0 == "std::io::cursor::Cursor" and args:
+            last = short.split("::")[-1]
+            if last == "new" and len(args) == 1:
+                v = self.deref_val(args[0]) if isinstance(args[0], (Ref, ElemRef)) else args[0]
+                if isinstance(v, (tuple, list)):
+                    v = BufView(list(v))
+                if isinstance(v, BufView):
+                    return CursorV(v, 0)
+            cv = self.deref_val(args[0]) if isinstance(args[0], Ref) else args[0]
+            if isinstance(cv, CursorV):
+                if last == "position" and len(args) == 1:
+                    return cv.pos
+                if last == "set_position" and len(args) == 2 and isinstance(args[1], int):
+                    cv.pos = args[1]
+                    return ()
+                if last in ("get_ref", "into_inner") and len(args) == 1:
+                    return cv.view
+        if short in ("core::slice::raw::from_mut", "core::slice::raw::from_ref") and len(args) == 1 and isinstance(args[0], Ref):
+            return RefSlice(args[0])
+        if sh0 in ("std::io::Read::read_exact", "std::io::Read::read") and len(args) == 2 and "Cursor<" in str(name):
+            cv = self.deref_val(args[0]) if isinstance(args[0], Ref) else args[0]
+            dst = self.deref_val(args[1]) if isinstance(args[1], Ref) else args[1]
+            if isinstance(cv, CursorV) and isinstance(dst, (RefSlice, BufView)):
+                want = 1 if isinstance(dst, RefSlice) else dst.n
+                have = max(0, cv.view.n - cv.pos)
+                exact = sh0.endswith("read_exact")
+                if exact and have < want:
+                    cv.pos = max(cv.pos, cv.view.n)
+                    return Enum("core::result::Result", 1, "Err", [UNKNOWN])
+                k = min(want, have)
+                vals = [cv.view.get(cv.pos + i) for i in range(k)]
+                cv.pos += k
+                if isinstance(dst, RefSlice):
+                    if k:
+                        r = dst.ref
+                        f2 = self.frames[r.key[1]]
+                        self.write_place(f2, [r.key[2]] + [list(x) if isinstance(x, tuple) else x for x in r.key[3:]], vals[0])
+                else:
+                    for i, v_ in enumerate(vals):
+                        dst.set(i, v_)
+                return Enum("core::result::Result", 0, "Ok", [() if exact else k])
+        if short.startswith("core::result::Result::<T, E>::") and short.split("::")[-1] in ("is_ok", "is_err") and len(args) == 1:
+            o = self.deref_val(args[0]) if isinstance(args[0], Ref) else args[0]
+            if isinstance(o, Enum) and o.name in ("Ok", "Err"):
+                return int((o.name == "Ok") == short.endswith("is_ok"))
+        # core::num::Wrapping<uN> arithmetic (a one-field struct)
+        if "core::num::wrapping::Wrapping<" in str(name) and sh0.startswith("core::ops::") and len(args) == 2:
+            wty = str(name).split("core::num::wrapping::Wrapping<")[1].split(">")[0]
+            bits = {"u8": 8, "u16": 16, "u32": 32, "u64": 64, "usize": 64}.get(wty)
+            a, b = (self.deref_val(q) if isinstance(q, (Ref, ElemRef)) else q for q in args)
+            opn = sh0.split("::")[-1]
+            if bits and isinstance(a, Struct) and len(a.fields) == 1 and isinstance(a.fields[0], int):
+                x = a.fields[0]
+                y = b.fields[0] if isinstance(b, Struct) and len(b.fields) == 1 else b
+                if isinstance(y, int) and not isinstance(y, bool):
+                    fn_ = {"mul": lambda: x * y, "add": lambda: x + y, "sub": lambda: x - y, "shr": lambda: x >> (y % bits), "shl": lambda: x << (y % bits),
+                           "bitand": lambda: x & y, "bitor": lambda: x | y, "bitxor": lambda: x ^ y}.get(opn)
+                    if fn_:
+                        return Struct([fn_() & ((1 << bits) - 1)])
+        # a growable vector is a BufView over its own list (off 0, n == len(buf))
+        if sh0 == "alloc::vec::Vec" and short.split("::")[-1] in ("new", "with_capacity") and len(args) <= 1:
+            return BufView([])
+        if isinstance(a0, BufView) and a0.off == 0 and a0.n == len(a0.buf) and sh0 == "alloc::vec::Vec":
+            last = short.split("::")[-1]
+            if last == "push" and len(args) == 2:
+                a0.buf.append(args[1])
+                a0.n += 1
+                return ()
+            if last in ("extend_from_slice", "extend_from_within") and len(args) == 2:
+                src = self.deref_val(args[1]) if isinstance(args[1], Ref) else args[1]
+                vals = src.items() if isinstance(src, BufView) else (list(src) if isinstance(src, (tuple, list)) else None)
+                if vals is not None and last == "extend_from_slice":
+                    a0.buf.extend(vals)
+                    a0.n += len(vals)
+                    return ()
+            if last in ("as_slice", "as_mut_slice") and len(args) == 1:
+                return a0
+            if last == "truncate" and len(args) == 2 and isinstance(args[1], int):
+                if args[1] < a0.n:
+                    del a0.buf[args[1]:]
+                    a0.n = args[1]
+                return ()
+        if sh0 == "core::iter::traits::collect::Extend::extend" and len(args) == 2 and isinstance(a0, BufView) and a0.off == 0 and a0.n == len(a0.buf):
+            src = self.deref_val(args[1]) if isinstance(args[1], Ref) else args[1]
+            it = src if isinstance(src, PyIter) else self._as_iter(src) if not isinstance(src, (BufView, tuple, list)) else None
+            if isinstance(src, BufView):
+                vals = src.items()
+            elif isinstance(src, (tuple, list)):
+                vals = list(src)
+            elif it is not None:
+                vals = self._drain(it)
+            else:
+                raise Unsupported("extend with %r" % (src,))
+            vals = [x.buf[x.i] if isinstance(x, ElemRef) else x for x in vals]
+            a0.buf.extend(vals)
+            a0.n += len(vals)
+            return ()
+        if sh0 == "core::iter::traits::iterator::Iterator::collect" and len(args) == 1 and isinstance(args[0], PyIter) and "Vec<" in " ".join(str(q) for q in (c.get("args") or [])):
+            vals = [x.buf[x.i] if isinstance(x, ElemRef) else x for x in self._drain(args[0])]
+            return BufView(vals)
         if short in ("alloc::vec::from_elem",) and len(args) == 2 and isinstance(args[1], int) and 0 <= args[1] < 1 << 20:
             return BufView([args[0]] * args[1])
         if sh0 in ("core::ops::deref::DerefMut::deref_mut", "core::ops::deref::Deref::deref") and isinstance(a0, BufView):
             return a0
+        if sh0 == "core::iter::adapters::zip::zip" and len(args) == 2:
+            def as_it(x):
+                x = self.deref_val(x) if isinstance(x, Ref) else x
+                if isinstance(x, PyIter):
+                    return x
+                if isinstance(x, BufView):
+                    return PyIter([ElemRef(x.buf, x.off + i) for i in range(x.n)])
+                if isinstance(x, (tuple, list)) and not (len(x) == 3 and x[0] == "rangei"):
+                    store = list(x)
+                    return PyIter([ElemRef(store, i) for i in range(len(store))])
+                it_ = self._as_iter(x)
+                if it_ is None:
+                    raise Unsupported("zip of %r" % (x,))
+                return it_
+            ia, ib = as_it(args[0]), as_it(args[1])
+            return PyIter([(x, y) for x, y in zip(ia.items[ia.pos:], ib.items[ib.pos:])])
+        if sh0 == "core::iter::traits::collect::IntoIterator::into_iter" and len(args) == 1 and isinstance(args[0], tuple) and args[0] \
+                and not (len(args[0]) == 3 and args[0][0] == "rangei") and all(isinstance(q, tuple) for q in args[0]) and "&" in " ".join(str(q) for q in (c.get("args") or [])):
+            store = list(args[0])       # a constant slice of arrays (`&[&[u8; 4]]`)
+            return PyIter([ElemRef(store, i) for i in range(len(store))])
         if sh0 == "core::iter::traits::iterator::Iterator::zip" and len(args) == 2 and isinstance(args[0], PyIter):
             b = args[1]
             b = self.deref_val(b) if isinstance(b, Ref) else b
@@ -897,6 +1078,12 @@ class Evaluator:
                 raise Unsupported("zip with %r" % (b,))
             ai = args[0].items[args[0].pos:]
             return PyIter([(x, y) for x, y in zip(ai, bi)])
+        if sh0 == "core::iter::traits::iterator::Iterator::map" and len(args) == 2:
+            it = self._as_iter(args[0])
+            if it is not None and isinstance(args[1], Struct):
+                r = PyIter([Thunk(args[1], x) for x in it.items[it.pos:]])
+                it.pos = len(it.items)
+                return r
         if sh0 == "core::iter::traits::iterator::Iterator::enumerate" and len(args) == 1 and isinstance(args[0], PyIter):
             return PyIter([(i, x) for i, x in enumerate(args[0].items[args[0].pos:])])
         if sh0 in ("core::iter::traits::collect::IntoIterator::into_iter", "core::slice::<impl [T]>::iter_mut") and len(args) == 1 and isinstance(args[0], list):
@@ -913,9 +1100,9 @@ class Evaluator:
         if sh0 in ("core::iter::traits::iterator::Iterator::reduce", "core::iter::traits::iterator::Iterator::fold", "core::iter::traits::iterator::Iterator::sum",
                    "core::iter::traits::iterator::Iterator::max", "core::iter::traits::iterator::Iterator::min", "core::iter::traits::iterator::Iterator::count") \
                 and args and isinstance(args[0], PyIter):
-            rest = args[0].items[args[0].pos:]
-            args[0].pos = len(args[0].items)
             fm = sh0.split("::")[-1]
+            rest = self._drain(args[0]) if fm in ("sum", "count", "max", "min") else args[0].items[args[0].pos:]
+            args[0].pos = len(args[0].items)
             if fm == "sum":
                 return sum(rest)
             if fm == "count":
@@ -929,15 +1116,17 @@ class Evaluator:
                 acc, rest = rest[0], rest[1:]
             else:
                 acc = args[1]
+            if fm == "reduce":
+                acc = self._force(acc)
             for it in rest:
-                acc = self._call_closure(cl, [acc, it])
+                acc = self._call_closure(cl, [acc, self._force(it)])
             return Enum("core::option::Option", 1, "Some", [acc]) if fm == "reduce" else acc
         if sh0 == "core::iter::traits::iterator::Iterator::next" and len(args) == 1 and isinstance(args[0], Ref):
             v = self.deref_val(args[0])
             if isinstance(v, PyIter):
                 if v.pos < len(v.items):
                     v.pos += 1
-                    return Enum("core::option::Option", 1, "Some", [v.items[v.pos - 1]])
+                    return Enum("core::option::Option", 1, "Some", [self._force(v.items[v.pos - 1])])
                 return Enum("core::option::Option", 0, "None", [])
             if isinstance(v, Struct) and len(v.fields) == 2 and all(isinstance(q, int) and not isinstance(q, bool) for q in v.fields):
                 if v.fields[0] < v.fields[1]:
@@ -987,7 +1176,17 @@ class Evaluator:
                 f2 = self.frames[r.key[1]]
                 self.write_place(f2, [r.key[2]] + [list(x) if isinstance(x, tuple) else x for x in r.key[3:]], v)
             return ()
-        raise Unsupported("call to %s" % short)
+        if sh0 in ("core::iter::traits::collect::IntoIterator::into_iter", "core::slice::<impl [T]>::iter") and len(args) == 1 and isinstance(args[0], Ref):
+            try:
+                x = self.deref_val(args[0])
+            except Unsupported:
+                x = None
+            if isinstance(x, BufView):
+                return PyIter([ElemRef(x.buf, x.off + i) for i in range(x.n)])
+            if isinstance(x, (tuple, list)) and not (len(x) == 3 and x and x[0] in ("rangei", "const")):
+                store = list(x)
+                return PyIter([ElemRef(store, i) for i in range(len(store))])
+        raise Unsupported("call to %s on (%s)" % (short, ", ".join(repr(a)[:40] for a in args)))
 
     def _call_closure(self, cl, cargs):
         f3 = self.prog.fn(getattr(cl, "closure", "") or "") if isinstance(cl, Struct) else None
@@ -1001,6 +1200,23 @@ class Evaluator:
         else:
             first = cl
         return self.call_fn(f3, [first] + list(cargs))
+
+    def _force(self, x):
+        if isinstance(x, Thunk):
+            if not x.done:
+                x.val = self._force(self._call_closure(x.cl, [self._force(x.x)]))
+                x.done = True
+            return x.val
+        if isinstance(x, tuple) and any(isinstance(q, (Thunk, tuple)) for q in x):
+            return tuple(self._force(q) for q in x)
+        return x
+
+    def _drain(self, it):
+        out = []
+        while it.pos < len(it.items):
+            it.pos += 1
+            out.append(self._force(it.items[it.pos - 1]))
+        return out
 
     def _as_iter(self, v):
         if isinstance(v, PyIter):
